@@ -708,6 +708,10 @@ fn run_case(prop: &str, t: Template, i: u64, rng: &mut Rng, out: &mut Outcome, d
 fn in_process_txn_faults(prop: &str, i: u64, rng: &mut Rng, out: &mut Outcome, dir: &Path) {
     use mdk_storage_traits::MdkStorageProvider;
     use openmls_traits::OpenMlsProvider;
+    if i % 5 == 4 {
+        relay_replacement_fault(prop, i, rng, out, dir);
+        return;
+    }
     let which_restore = i % 2 == 1;
     let panic_variant = (i / 2) % 2 == 1;
     let sub = dir.join(format!("txn-{i}"));
@@ -816,6 +820,63 @@ fn in_process_txn_faults(prop: &str, i: u64, rng: &mut Rng, out: &mut Outcome, d
     w.cleanup();
 }
 
+/// Relay replacement is all-or-nothing: a failure (or panic) between the DELETE and the INSERTs
+/// inside the savepoint leaves the old set.
+fn relay_replacement_fault(prop: &str, i: u64, rng: &mut Rng, out: &mut Outcome, dir: &Path) {
+    use mdk_storage_traits::groups::GroupStorage;
+    use openmls_traits::OpenMlsProvider;
+    let panic_variant = (i / 5) % 2 == 1;
+    let sub = dir.join(format!("relay-{i}"));
+    let _ = std::fs::create_dir_all(&sub);
+    let mut w = World::empty(sub.clone(), format!("c12r-{i}"));
+    let cfg = MdkConfig::default();
+    let a = w.add_client(BackendKind::Memory, cfg.clone(), rng);
+    let s = w.add_client(BackendKind::Sqlite, cfg.clone(), rng);
+    let g = w.create_group(&[a, s], &[a], None, "relays");
+    let gid = w.gid(g);
+    out.evaluations += 1;
+    out.count("in_process_txn_faults");
+    out.note("txn_fault_points", format!("{}:replace_group_relays::after_delete", if panic_variant { "panic" } else { "error" }));
+    out.distinct.insert(crate::rng::fnv(format!("relays|{panic_variant}").as_bytes()));
+    let before = w.clients[s].fp(&gid).rel;
+    set_thread_tick_hook(Some(Arc::new(move |l| {
+        if l == "replace_group_relays::after_delete" {
+            if panic_variant {
+                panic!("verif: injected panic at {l}");
+            }
+            return TickAction::Fail;
+        }
+        TickAction::Continue
+    })));
+    // through a real commit that changes the relay set
+    w.t += 2;
+    let t0 = w.t;
+    let c = w.act_commit(a, g, &CommitKind::Relays, t0, OwnMode::Immediate, rng.next() % 1000, rng);
+    let r = match c {
+        Some(c) => {
+            let ev = w.log[c].ev.clone();
+            Some(std::panic::catch_unwind(std::panic::AssertUnwindSafe(|| with_mdk!(w.clients[s].mdk, x => x.process_message(&ev)))))
+        }
+        None => None,
+    };
+    // and directly at the storage trait
+    let direct = std::panic::catch_unwind(std::panic::AssertUnwindSafe(|| with_mdk!(w.clients[s].mdk, x => x.provider.storage().replace_group_relays(&gid, [relay(4)].into_iter().collect()))));
+    set_thread_tick_hook(None);
+    if panic_variant {
+        w.clients[s].restart();
+    }
+    let after = w.clients[s].fp(&gid).rel;
+    let sig_tail = format!("txn=relay-replacement|{}", if panic_variant { "panic" } else { "injected-error" });
+    if after != before {
+        out.violation(format!("{prop}|transaction-half-applied|{sig_tail}|parts=REL"), format!("relay replacement failed half-way but the relay set changed: `{before}` -> `{after}`"), json!({"kind": "txn-fault", "label": "replace_group_relays::after_delete"}));
+    }
+    if !panic_variant && matches!(direct, Ok(Ok(()))) {
+        out.violation(format!("{prop}|failed-transaction-reported-as-success|{sig_tail}"), "replace_group_relays returned Ok although it failed half-way".to_string(), json!({"kind": "txn-fault"}));
+    }
+    let _ = r;
+    w.cleanup();
+}
+
 pub fn run(ctx: &Ctx) -> i32 {
     let dir = ctx.scratch_dir("c12");
     let thorough = ctx.tier == crate::report::Tier::Thorough;
@@ -834,7 +895,7 @@ pub fn run(ctx: &Ctx) -> i32 {
     let _ = std::fs::remove_dir_all(&dir);
     let floors = vec![
         Floor { what: "in-process transaction faults", have: out.get("in_process_txn_faults"), need: 100 },
-        Floor { what: "distinct transaction fault points", have: out.sets.get("txn_fault_points").map(|s| s.len()).unwrap_or(0) as u64, need: 24 },
+        Floor { what: "distinct transaction fault points", have: out.sets.get("txn_fault_points").map(|s| s.len()).unwrap_or(0) as u64, need: 26 },
         Floor { what: "cuts executed", have: out.get("cuts"), need: ctx.tier.pick(100, 1500) },
         Floor { what: "templates", have: out.sets.get("templates").map(|s| s.len()).unwrap_or(0) as u64, need: 7 },
         Floor { what: "distinct tick labels cut at", have: out.sets.get("cut_labels").map(|s| s.len()).unwrap_or(0) as u64, need: 40 },
